@@ -21,7 +21,8 @@ class SanBuild:
         self.name = f'{cc}-{mode}{opt}'
 
     def flags(self):
-        f = ['-std=c++17', self.opt, '-g', '-fno-omit-frame-pointer', '-w', f'-D{V.HOOK_DEFINE}=1', f'-I{V.LIB_INC}']
+        # the clang builds use the GNU dialect (same UB rules; __int128 operands and !__STRICT_ANSI__ code exist only there)
+        f = ['-std=gnu++17' if self.compiler == 'clang++' else '-std=c++17', self.opt, '-g', '-fno-omit-frame-pointer', '-w', f'-D{V.HOOK_DEFINE}=1', f'-I{V.LIB_INC}']
         if self.mode == 'report':
             f += ['-fsanitize=address,undefined,float-cast-overflow', '-fsanitize-recover=address,undefined,float-cast-overflow']
         else:
